@@ -42,6 +42,13 @@ type validateArgs struct {
 	// json.Compact) — so the document still says what the schema means, and the model and the judge read the document. Absent
 	// (the default): nothing changes.
 	RawDefaults []rawDefault `json:"rawDefaults"`
+	// History (op defaults): [i0, i1, …] — indices into insts ++ ginsts (i < len(insts): the instance decoded into any, otherwise
+	// the typed instance ginsts[i-len(insts)]). ONE further, fresh Resolved gets ApplyDefaults for fresh copies of these instances
+	// in this order (instances of different Go types through one Resolved, e.g. a map[string]float32 first and a map[string]any
+	// after it); every step is compared with what a Resolved of its own (fresh Resolve, this instance only) gives for the same
+	// instance: same outcome, reflect.DeepEqual Go values (type-exact: float32(0.1) in a map[string]any is not float64 0.1), same
+	// Validate verdict of the completed instance. Reported as "history_free" / "history_detail". Absent (the default): not run.
+	History []int `json:"history"`
 }
 
 type rawDefault struct {
